@@ -159,18 +159,26 @@ theorem topGe (B : Bnd) (Y : List Cont) (fs S : List Frame) (hp : peelAll Y fs =
   obtain ⟨f, rest, hfs, hok⟩ := topOk B Y fs S hp hl hg
   rw [hfs]; exact hok.1
 
+/-- a frame with an open `try` has `min_frame_registers ≥ r0` (in every real execution such a frame
+has executed its `NewFrame`, so `min_frame_registers = base + required ≥ base ≥ r0`; the hypothesis
+matters only for event lists in which a frame executes `TryStart` before its `NewFrame`, while
+`min_frame_registers` still holds the *caller's* value). Needed since fix 8f4d2e4: the catch point
+resizes the value stack to exactly `min_frame_registers`. Trivial for `r0 = 0`. -/
+def TryOk (B : Bnd) (vm : VM) : Prop :=
+  ∀ f rest, vm.stack = f :: rest → f.catches ≠ [] → B.r0 ≤ vm.minRegs
+
 /-! ### unwinding keeps the lower bounds -/
 
 theorem unwindGo_low (c : Bool) (B : Bnd) : ∀ (fs : List Frame) (vm : VM) (R : List Frame),
     vm.stack = fs → dropLoop fs = some R → (∀ X, fs = X ++ R → ∀ f ∈ X, FrameOk B f) →
-    B.r0 ≤ vm.regs → B.ql ≤ vm.seq → B.tl ≤ vm.str →
+    B.r0 ≤ vm.regs → B.ql ≤ vm.seq → B.tl ≤ vm.str → TryOk B vm →
     B.r0 ≤ (unwindGo c fs vm).1.regs ∧ (unwindGo c fs vm).1.stack <:+ fs ∧
     B.ql ≤ (unwindGo c fs vm).1.seq ∧ B.tl ≤ (unwindGo c fs vm).1.str := by
   intro fs
   induction fs with
   | nil => intro vm R _ h; simp [dropLoop] at h
   | cons f rest ih =>
-    intro vm R hs hd hge hr hq ht
+    intro vm R hs hd hge hr hq ht hmin
     obtain ⟨X0, hX0, hne0⟩ := dropLoop_split (f :: rest) R hd
     have hfok : FrameOk B f := by
       cases X0 with
@@ -185,7 +193,8 @@ theorem unwindGo_low (c : Bool) (B : Bnd) : ∀ (fs : List Frame) (vm : VM) (R :
     · -- caught: the builders opened in the try block are discarded
       rename_i cc _ hcat
       have hc := hfok.2.2.2 cc (by rw [hcat]; simp)
-      refine ⟨hr, by simp [hs], ?_, ?_⟩
+      refine ⟨?_, by simp [hs], ?_, ?_⟩
+      · simp only []; exact hmin f rest hs (by rw [hcat]; simp)
       · simp only []; exact Nat.le_min.mpr ⟨hq, hc.1⟩
       · simp only []; exact Nat.le_min.mpr ⟨ht, hc.2⟩
     · by_cases hbar : f.barrier = true
@@ -219,7 +228,10 @@ theorem unwindGo_low (c : Bool) (B : Bnd) : ∀ (fs : List Frame) (vm : VM) (R :
             rw [hp.2.2.2.2.1]; exact Nat.le_min.mpr ⟨hq, hfok.2.1⟩
           have ht' : B.tl ≤ (popTo f (r :: rs) vm).1.str := by
             rw [hp.2.2.2.2.2.1]; exact Nat.le_min.mpr ⟨ht, hfok.2.2.1⟩
-          have := ih (popTo f (r :: rs) vm).1 R hp.1 hd' hge' hregs hq' ht'
+          have hmin' : TryOk B (popTo f (r :: rs) vm).1 := by
+            intro g gs _ _
+            rw [hp.2.2.1]; simp only [topMin]; omega
+          have := ih (popTo f (r :: rs) vm).1 R hp.1 hd' hge' hregs hq' ht' hmin'
           exact ⟨this.1, List.IsSuffix.trans this.2.1 (List.suffix_cons f (r :: rs)), this.2.2⟩
 
 /-- What is known when the bracket's own continuation has been popped. -/
@@ -272,13 +284,14 @@ theorem raiseGo_low (s0 : St) (x0 : Exit) (hs0 : inLoop s0 = false) (B : Bnd) :
       peelAll Y vm.stack = some s0.vm.stack → vm.base = topBase vm.stack →
       (Y ≠ [] → Y.getLast? = some (.loop x0)) → Y ≠ [] →
       B.r0 ≤ vm.regs → B.ql ≤ vm.seq → B.tl ≤ vm.str → GeAbove B s0.vm.stack vm.stack →
+      TryOk B vm →
       ∀ Y', (raiseGo (Y ++ s0.conts) c vm).conts = Y' ++ s0.conts →
         Low B (.loop x0) s0.vm.stack (raiseGo (Y ++ s0.conts) c vm) Y' := by
   intro Y
   induction Y with
   | nil => intro c vm _ _ _ hne; exact absurd rfl hne
   | cons c1 Y1 ih =>
-    intro c vm hp hb hl _ hr hq ht hg Y' hY'
+    intro c vm hp hb hl _ hr hq ht hg hmin Y' hY'
     cases c1 with
     | native a b =>
       rw [List.cons_append, raiseGo_notLoop _ _ _ (by simp)] at hY' ⊢
@@ -302,7 +315,7 @@ theorem raiseGo_low (s0 : St) (x0 : Exit) (hs0 : inLoop s0 = false) (B : Bnd) :
           have : vm.stack = (X ++ X2) ++ s0.vm.stack := by rw [hX, hX2, List.append_assoc]
           exact (hg (X ++ X2) this).1 f (List.mem_append_left X2 hf)
         have hu := unwindGo_spec c vm.stack vm R1 rfl hb hdl
-        have hlow := unwindGo_low c B vm.stack vm R1 rfl hdl hgeR hr hq ht
+        have hlow := unwindGo_low c B vm.stack vm R1 rfl hdl hgeR hr hq ht hmin
         simp only [] at hu
         have hune : unwind c vm = unwindGo c vm.stack vm := rfl
         rcases hres : unwindGo c vm.stack vm with ⟨vm1, r⟩
@@ -366,8 +379,15 @@ theorem raiseGo_low (s0 : St) (x0 : Exit) (hs0 : inLoop s0 = false) (B : Bnd) :
               exact ⟨fun h => absurd rfl h, fun h => absurd rfl h, fun h => absurd rfl h,
                 fun h => absurd rfl h, fun _ => hdone rfl⟩
             | cons y ys =>
+              have hmin1 : TryOk B (exitErr x vm1) := by
+                intro g gs _ _
+                have htop := topGe B (y :: ys) R1 _ hp (hasLoop_of_getLast (y :: ys) x0 (hl1 (by simp))) hgR1
+                rw [hx.2.2.1]
+                cases R1 with
+                | nil => simp [topBase] at htop; simp [topMin]; omega
+                | cons r1 rs1 => simp [topBase] at htop; simp [topMin]; omega
               exact ih true (exitErr x vm1) hp1 hb1 hl1 (by simp) (hregs1 (by simp)) hq1 ht1 hg2
-                Y' hY'
+                hmin1 Y' hY'
           | inr h =>
             rw [h] at hY' ⊢
             have : Y' = Y1 := by
@@ -397,26 +417,29 @@ structure Inside (s0 : St) (x0 : Exit) (B : Bnd) (st : St) (Y : List Cont) : Pro
   ge : GeAbove B s0.vm.stack st.vm.stack
   base : B.r0 ≤ st.vm.base
   split : ∃ X, st.vm.stack = X ++ s0.vm.stack ∧ X ≠ []
+  tryok : TryOk B st.vm
 
 theorem inside_of (s0 : St) (x0 : Exit) (B : Bnd) (st : St) (Y : List Cont)
-    (h : Inv s0 (.loop x0) st Y) (hl : Low B (.loop x0) s0.vm.stack st Y) (hY : Y ≠ []) :
+    (h : Inv s0 (.loop x0) st Y) (hl : Low B (.loop x0) s0.vm.stack st Y) (hY : Y ≠ [])
+    (htry : TryOk B st.vm) :
     Inside s0 x0 B st Y := by
   obtain ⟨X, hX, hne⟩ := peelAll_split Y st.vm.stack _ h.peel
   have hloop := hasLoop_of_getLast Y x0 (h.lastc hY)
-  refine ⟨h, hY, hl.regsIn hY, hl.seqIn hY, hl.strIn hY, hl.ge hY, ?_, ⟨X, hX, hne hloop⟩⟩
+  refine ⟨h, hY, hl.regsIn hY, hl.seqIn hY, hl.strIn hY, hl.ge hY, ?_, ⟨X, hX, hne hloop⟩, htry⟩
   rw [h.base]
   exact topGe B Y _ _ h.peel hloop (hl.ge hY)
 
 theorem raise_low_of (s0 : St) (x0 : Exit) (hs0 : inLoop s0 = false) (B : Bnd) (st : St)
     (Y : List Cont) (hi : Inside s0 x0 B st Y) (c : Bool) (vm : VM)
     (h1 : vm.stack = st.vm.stack) (h2 : vm.base = st.vm.base) (h3 : B.r0 ≤ vm.regs)
-    (h4 : vm.seq = st.vm.seq) (h5 : vm.str = st.vm.str)
+    (h4 : vm.seq = st.vm.seq) (h5 : vm.str = st.vm.str) (h6 : vm.minRegs = st.vm.minRegs)
     (Y' : List Cont) (hY' : (raiseGo st.conts c vm).conts = Y' ++ s0.conts) :
     Low B (.loop x0) s0.vm.stack (raiseGo st.conts c vm) Y' := by
   rw [hi.inv.conts] at hY' ⊢
   exact raiseGo_low s0 x0 hs0 B Y c vm (by rw [h1]; exact hi.inv.peel)
     (by rw [h1, h2]; exact hi.inv.base) hi.inv.lastc hi.ne h3 (by rw [h4]; exact hi.seq)
-    (by rw [h5]; exact hi.str) (by rw [h1]; exact hi.ge) Y' hY'
+    (by rw [h5]; exact hi.str) (by rw [h1]; exact hi.ge)
+    (fun f rest hs hc => by rw [h6]; exact hi.tryok f rest (by rw [← h1]; exact hs) hc) Y' hY'
 
 /-- a frame pushed inside the bracket is `FrameOk` -/
 theorem pushed_ok (B : Bnd) (base fb seq str : Nat) (barrier : Bool) (hb : B.r0 ≤ base)
@@ -454,10 +477,10 @@ theorem enterWith_low (s0 : St) (x0 : Exit) (hs0 : inLoop s0 = false) (B : Bnd) 
     cases t with
     | true =>
       exact raise_low_of s0 x0 hs0 B st Y hi true _ (by simp [truncate]) (by simp [truncate])
-        (by simp [truncate]; omega) (by simp [truncate]) (by simp [truncate]) Y' hc'
+        (by simp [truncate]; omega) (by simp [truncate]) (by simp [truncate]) (by simp [truncate]) Y' hc'
     | false =>
       exact raise_low_of s0 x0 hs0 B st Y hi true _ (by simp) (by simp) (by simp; omega)
-        (by simp) (by simp) Y' hc'
+        (by simp) (by simp) (by simp) Y' hc'
 
 theorem enterDirect_low (s0 : St) (x0 : Exit) (hs0 : inLoop s0 = false) (B : Bnd) (st : St)
     (Y : List Cont) (hi : Inside s0 x0 B st Y) (pre : Nat) (ok : Bool)
@@ -478,7 +501,7 @@ theorem enterDirect_low (s0 : St) (x0 : Exit) (hs0 : inLoop s0 = false) (B : Bnd
     have hc' := h'.conts
     simp only [enterDirect] at hc' ⊢
     exact raise_low_of s0 x0 hs0 B st Y hi true _ (by simp [truncate]) (by simp [truncate])
-      (by simp [truncate]; omega) (by simp [truncate]) (by simp [truncate]) Y' hc'
+      (by simp [truncate]; omega) (by simp [truncate]) (by simp [truncate]) (by simp [truncate]) Y' hc'
 
 theorem enterChecked_low (s0 : St) (x0 : Exit) (hs0 : inLoop s0 = false) (B : Bnd) (st : St)
     (Y : List Cont) (hi : Inside s0 x0 B st Y) (pre args : Nat) (c : Callee)
@@ -488,7 +511,7 @@ theorem enterChecked_low (s0 : St) (x0 : Exit) (hs0 : inLoop s0 = false) (B : Bn
   split at h' <;> rename_i hf
   · rw [if_pos hf]; exact enterWith_low s0 x0 hs0 B st Y hi true pre args c Y' h'
   · rw [if_neg hf]
-    exact raise_low_of s0 x0 hs0 B st Y hi true _ rfl rfl hi.regs rfl rfl Y' h'.conts
+    exact raise_low_of s0 x0 hs0 B st Y hi true _ rfl rfl hi.regs rfl rfl rfl Y' h'.conts
 
 theorem enterOpChecked_low (s0 : St) (x0 : Exit) (hs0 : inLoop s0 = false) (B : Bnd) (st : St)
     (Y : List Cont) (hi : Inside s0 x0 B st Y) (pre args : Nat) (c : Callee)
@@ -498,7 +521,7 @@ theorem enterOpChecked_low (s0 : St) (x0 : Exit) (hs0 : inLoop s0 = false) (B : 
   split at h' <;> rename_i hf
   · rw [if_pos hf]; exact enterWith_low s0 x0 hs0 B st Y hi true pre args c Y' h'
   · rw [if_neg hf]
-    exact raise_low_of s0 x0 hs0 B st Y hi true _ rfl rfl hi.regs rfl rfl Y' h'.conts
+    exact raise_low_of s0 x0 hs0 B st Y hi true _ rfl rfl hi.regs rfl rfl rfl Y' h'.conts
 
 theorem enterDirectChecked_low (s0 : St) (x0 : Exit) (hs0 : inLoop s0 = false) (B : Bnd) (st : St)
     (Y : List Cont) (hi : Inside s0 x0 B st Y) (pre : Nat) (ok : Bool)
@@ -508,7 +531,7 @@ theorem enterDirectChecked_low (s0 : St) (x0 : Exit) (hs0 : inLoop s0 = false) (
   split at h' <;> rename_i hf
   · rw [if_pos hf]; exact enterDirect_low s0 x0 hs0 B st Y hi pre ok Y' h'
   · rw [if_neg hf]
-    exact raise_low_of s0 x0 hs0 B st Y hi true _ rfl rfl hi.regs rfl rfl Y' h'.conts
+    exact raise_low_of s0 x0 hs0 B st Y hi true _ rfl rfl hi.regs rfl rfl rfl Y' h'.conts
 
 theorem nested_low (s0 : St) (x0 : Exit) (hs0 : inLoop s0 = false) (B : Bnd) (st : St)
     (Y : List Cont) (hi : Inside s0 x0 B st Y) (args a : Nat)
@@ -522,7 +545,7 @@ theorem nested_low (s0 : St) (x0 : Exit) (hs0 : inLoop s0 = false) (B : Bnd) (st
   by_cases hfb : st.vm.regs - st.vm.base > 255
   · have hc' := h'.conts
     simp only [nested, hfb, if_true, raise] at hc' ⊢
-    exact raise_low_of s0 x0 hs0 B st Y hi true _ rfl rfl hr rfl rfl Y' hc'
+    exact raise_low_of s0 x0 hs0 B st Y hi true _ rfl rfl hr rfl rfl rfl Y' hc'
   · apply low_mk _ _ _ _ _ (ne_of_conts s0 _ Y' h'.conts (by simp [nested, hfb]; omega))
     · simp [nested, hfb, callKoto, pushFrame]; omega
     · simpa [nested, hfb, callKoto, pushFrame] using hi.seq
@@ -534,7 +557,8 @@ theorem nested_low (s0 : St) (x0 : Exit) (hs0 : inLoop s0 = false) (B : Bnd) (st
 /-- the event does not pop a builder at or below the claimed lower bound -/
 def SafeEv (B : Bnd) (ev : Ev) (st : St) : Prop :=
   (ev = .seqEnd → st.vm.seq ≠ 0 → B.ql < st.vm.seq) ∧
-  (ev = .strEnd → st.vm.str ≠ 0 → B.tl < st.vm.str)
+  (ev = .strEnd → st.vm.str ≠ 0 → B.tl < st.vm.str) ∧
+  TryOk B st.vm
 
 theorem step_low_loop (s0 : St) (x0 : Exit) (hs0 : inLoop s0 = false) (B : Bnd) (st : St)
     (x : Exit) (Y1 : List Cont) (hi : Inside s0 x0 B st (.loop x :: Y1)) (ev : Ev)
@@ -639,7 +663,7 @@ theorem step_low_loop (s0 : St) (x0 : Exit) (hs0 : inLoop s0 = false) (B : Bnd) 
     by_cases hz : st.vm.seq = 0
     · have hc' := h'.conts
       simp only [step, hin, if_true, hz, raise] at hc' ⊢
-      exact raise_low_of s0 x0 hs0 B st _ hi true _ rfl rfl hr rfl rfl Y' hc'
+      exact raise_low_of s0 x0 hs0 B st _ hi true _ rfl rfl hr rfl rfl rfl Y' hc'
     · have hs1 := hsafe.1 rfl hz
       apply low_mk _ _ _ _ _ (ne_of_conts s0 _ Y' h'.conts (by simpa [step, hin, hz] using hlen))
       · simpa [step, hin, hz] using hr
@@ -650,8 +674,8 @@ theorem step_low_loop (s0 : St) (x0 : Exit) (hs0 : inLoop s0 = false) (B : Bnd) 
     by_cases hz : st.vm.str = 0
     · have hc' := h'.conts
       simp only [step, hin, if_true, hz, raise] at hc' ⊢
-      exact raise_low_of s0 x0 hs0 B st _ hi true _ rfl rfl hr rfl rfl Y' hc'
-    · have hs1 := hsafe.2 rfl hz
+      exact raise_low_of s0 x0 hs0 B st _ hi true _ rfl rfl hr rfl rfl rfl Y' hc'
+    · have hs1 := hsafe.2.1 rfl hz
       apply low_mk _ _ _ _ _ (ne_of_conts s0 _ Y' h'.conts (by simpa [step, hin, hz] using hlen))
       · simpa [step, hin, hz] using hr
       · simpa [step, hin, hz] using hq
@@ -660,12 +684,17 @@ theorem step_low_loop (s0 : St) (x0 : Exit) (hs0 : inLoop s0 = false) (B : Bnd) 
   | raise c =>
     have hc' := h'.conts
     simp only [step, hin, if_true, raise] at hc' ⊢
-    exact raise_low_of s0 x0 hs0 B st _ hi c _ rfl rfl hr rfl rfl Y' hc'
+    exact raise_low_of s0 x0 hs0 B st _ hi c _ rfl rfl hr rfl rfl rfl Y' hc'
+  | opSetupFail n =>
+    have hc' := h'.conts
+    simp only [step, hin, if_true, raise] at hc' ⊢
+    exact raise_low_of s0 x0 hs0 B st _ hi true { st.vm with regs := st.vm.regs + n } rfl rfl
+      (by simp; omega) rfl rfl rfl Y' hc'
   | importBegin m =>
     by_cases hm : m ∈ st.vm.placeholders
     · have hc' := h'.conts
       simp only [step, hin, if_true, hm, raise] at hc' ⊢
-      exact raise_low_of s0 x0 hs0 B st _ hi true _ rfl rfl hr rfl rfl Y' hc'
+      exact raise_low_of s0 x0 hs0 B st _ hi true _ rfl rfl hr rfl rfl rfl Y' hc'
     · by_cases hcd : m ∈ st.vm.cached
       · apply low_mk _ _ _ _ _ (ne_of_conts s0 _ Y' h'.conts (by simpa [step, hin, hm, hcd] using hlen))
         · simpa [step, hin, hm, hcd] using hr
@@ -860,19 +889,21 @@ theorem step_low_native (s0 : St) (x0 : Exit) (hs0 : inLoop s0 = false) (B : Bnd
         · simp only []; rw [hn.1]; exact hi.ge
     | false =>
       have hraise : ∀ vm : VM, vm.stack = st.vm.stack → vm.base = st.vm.base → B.r0 ≤ vm.regs →
-          vm.seq = st.vm.seq → vm.str = st.vm.str →
+          vm.seq = st.vm.seq → vm.str = st.vm.str → vm.minRegs = st.vm.minRegs →
           ∀ Y', (raiseGo (Y1 ++ s0.conts) true vm).conts = Y' ++ s0.conts →
           Low B (.loop x0) s0.vm.stack (raiseGo (Y1 ++ s0.conts) true vm) Y' := by
-        intro vm h1 h2 h3 h4 h5 Y'' hY''
+        intro vm h1 h2 h3 h4 h5 h6 Y'' hY''
         exact raiseGo_low s0 x0 hs0 B Y1 true vm (by rw [h1]; exact hpeel)
           (by rw [h1, h2]; exact h.base) (fun _ => hl1) hY1 h3 (by rw [h4]; exact hq)
-          (by rw [h5]; exact ht) (by rw [h1]; exact hi.ge) Y'' hY''
+          (by rw [h5]; exact ht) (by rw [h1]; exact hi.ge)
+          (fun f rest hs hc => by rw [h6]; exact hi.tryok f rest (by rw [← h1]; exact hs) hc)
+          Y'' hY''
       cases host with
       | none =>
         have hstep : step (.nativeRet false) st = raiseGo (Y1 ++ s0.conts) true st.vm := by
           simp [step, hin, hconts]
         rw [hstep] at h' ⊢
-        exact hraise st.vm rfl rfl hr rfl rfl Y' h'.conts
+        exact hraise st.vm rfl rfl hr rfl rfl rfl Y' h'.conts
       | some rr =>
         have hstep : step (.nativeRet false) st =
             raiseGo (Y1 ++ s0.conts) true (if rr.2 then truncate rr.1 st.vm else st.vm) := by
@@ -881,11 +912,12 @@ theorem step_low_native (s0 : St) (x0 : Exit) (hs0 : inLoop s0 = false) (B : Bnd
         cases hr2 : rr.2 with
         | false =>
           simp only [hr2, Bool.false_eq_true, if_false] at h' ⊢
-          exact hraise st.vm rfl rfl hr rfl rfl Y' h'.conts
+          exact hraise st.vm rfl rfl hr rfl rfl rfl Y' h'.conts
         | true =>
           simp only [hr2, if_true] at h' ⊢
           exact hraise (truncate rr.1 st.vm) (by simp [truncate]) (by simp [truncate])
-            (by simp [truncate]; omega) (by simp [truncate]) (by simp [truncate]) Y' h'.conts
+            (by simp [truncate]; omega) (by simp [truncate]) (by simp [truncate]) (by simp [truncate])
+            Y' h'.conts
   | newFrame n =>
     apply low_mk _ _ _ _ _ (ne_of_conts s0 _ Y' h'.conts (by simpa [step, hin] using hlen))
     · simpa [step, hin] using hr
@@ -953,6 +985,12 @@ theorem step_low_native (s0 : St) (x0 : Exit) (hs0 : inLoop s0 = false) (B : Bnd
     · simpa [step, hin] using ht
     · simpa [step, hin] using hi.ge
   | raise c =>
+    apply low_mk _ _ _ _ _ (ne_of_conts s0 _ Y' h'.conts (by simpa [step, hin] using hlen))
+    · simpa [step, hin] using hr
+    · simpa [step, hin] using hq
+    · simpa [step, hin] using ht
+    · simpa [step, hin] using hi.ge
+  | opSetupFail n =>
     apply low_mk _ _ _ _ _ (ne_of_conts s0 _ Y' h'.conts (by simpa [step, hin] using hlen))
     · simpa [step, hin] using hr
     · simpa [step, hin] using hq
@@ -1014,7 +1052,8 @@ theorem step_low_importing (s0 : St) (x0 : Exit) (hs0 : inLoop s0 = false) (B : 
       rw [hstep] at h' ⊢
       exact raiseGo_low s0 x0 hs0 B Y1 true
         { st.vm with placeholders := st.vm.placeholders.erase m, exports := saved }
-        hpeel h.base (fun _ => hl1) hY1 hr hq ht hi.ge Y' h'.conts
+        hpeel h.base (fun _ => hl1) hY1 hr hq ht hi.ge (fun f rest hs hc => hi.tryok f rest hs hc)
+        Y' h'.conts
   | newFrame n =>
     apply low_mk _ _ _ _ _ (ne_of_conts s0 _ Y' h'.conts (by simpa [step, hin] using hlen))
     · simpa [step, hin] using hr
@@ -1087,6 +1126,12 @@ theorem step_low_importing (s0 : St) (x0 : Exit) (hs0 : inLoop s0 = false) (B : 
     · simpa [step, hin] using hq
     · simpa [step, hin] using ht
     · simpa [step, hin] using hi.ge
+  | opSetupFail n =>
+    apply low_mk _ _ _ _ _ (ne_of_conts s0 _ Y' h'.conts (by simpa [step, hin] using hlen))
+    · simpa [step, hin] using hr
+    · simpa [step, hin] using hq
+    · simpa [step, hin] using ht
+    · simpa [step, hin] using hi.ge
   | importBegin m' =>
     apply low_mk _ _ _ _ _ (ne_of_conts s0 _ Y' h'.conts (by simpa [step, hin] using hlen))
     · simpa [step, hin] using hr
@@ -1106,7 +1151,7 @@ theorem step_low (s0 : St) (x0 : Exit) (hs0 : inLoop s0 = false) (B : Bnd) (st :
     (hY : Y ≠ []) (ev : Ev) (hsafe : SafeEv B ev st)
     (Y' : List Cont) (h' : Inv s0 (.loop x0) (step ev st) Y') :
     Low B (.loop x0) s0.vm.stack (step ev st) Y' := by
-  have hi := inside_of s0 x0 B st Y h hl hY
+  have hi := inside_of s0 x0 B st Y h hl hY hsafe.2.2
   cases Y with
   | nil => exact absurd rfl hY
   | cons c1 Y1 =>
@@ -1121,7 +1166,7 @@ def SafeUntil (B : Bnd) (d : Nat) : List Ev → St → Prop
   | ev :: rest, st =>
     if st.conts.length ≤ d then True else SafeEv B ev st ∧ SafeUntil B d rest (step ev st)
 
-theorem safeUntil_zero (B : Bnd) (hq : B.ql = 0) (ht : B.tl = 0) (d : Nat) :
+theorem safeUntil_zero (B : Bnd) (hr : B.r0 = 0) (hq : B.ql = 0) (ht : B.tl = 0) (d : Nat) :
     ∀ (evs : List Ev) (st : St), SafeUntil B d evs st := by
   intro evs
   induction evs with
@@ -1131,7 +1176,8 @@ theorem safeUntil_zero (B : Bnd) (hq : B.ql = 0) (ht : B.tl = 0) (d : Nat) :
     simp only [SafeUntil]
     split
     · trivial
-    · exact ⟨⟨fun _ hz => by rw [hq]; omega, fun _ hz => by rw [ht]; omega⟩, ih _⟩
+    · exact ⟨⟨fun _ hz => by rw [hq]; omega, fun _ hz => by rw [ht]; omega,
+        fun _ _ _ _ => by rw [hr]; exact Nat.zero_le _⟩, ih _⟩
 
 theorem runUntil_low (s0 : St) (x0 : Exit) (hs0 : inLoop s0 = false) (hc : Consistent s0.vm)
     (B : Bnd) : ∀ (evs : List Ev) (st : St) (Y : List Cont), Inv s0 (.loop x0) st Y →
@@ -1162,7 +1208,10 @@ its own open (relative depth ≥ 1): the trace-level reading of C05's `wf_sound_
 accepted by `wfChunk` no builder instruction finds the frame unit's builder stack empty). -/
 def FrameSafeEv (ev : Ev) (st : St) : Prop :=
   (ev = .seqEnd → ∀ f rest, st.vm.stack = f :: rest → f.seq0 < st.vm.seq) ∧
-  (ev = .strEnd → ∀ f rest, st.vm.stack = f :: rest → f.str0 < st.vm.str)
+  (ev = .strEnd → ∀ f rest, st.vm.stack = f :: rest → f.str0 < st.vm.str) ∧
+  -- a frame with an open `try` has executed its `NewFrame` (fix 8f4d2e4: the catch point resizes
+  -- the value stack to `min_frame_registers`)
+  (∀ f rest, st.vm.stack = f :: rest → f.catches ≠ [] → st.vm.base ≤ st.vm.minRegs)
 
 def FrameSafeUntil (d : Nat) : List Ev → St → Prop
   | [], _ => True
@@ -1172,15 +1221,20 @@ def FrameSafeUntil (d : Nat) : List Ev → St → Prop
 /-- inside the bracket the per-frame condition implies the bracket-level one: the current frame
 lies above the caller's frames, so its recorded counts are at least the entry's -/
 theorem safeEv_of_frameSafe (s0 : St) (x0 : Exit) (B : Bnd) (st : St) (Y : List Cont)
-    (hi : Inside s0 x0 B st Y) (ev : Ev) (h : FrameSafeEv ev st) : SafeEv B ev st := by
-  obtain ⟨X, hX, hXne⟩ := hi.split
+    (hinv : Inv s0 (.loop x0) st Y) (hl : Low B (.loop x0) s0.vm.stack st Y) (hY : Y ≠ [])
+    (ev : Ev) (h : FrameSafeEv ev st) : SafeEv B ev st := by
+  obtain ⟨X, hX, hne⟩ := peelAll_split Y st.vm.stack _ hinv.peel
+  have hloop := hasLoop_of_getLast Y x0 (hinv.lastc hY)
+  have hbase : B.r0 ≤ st.vm.base := by
+    rw [hinv.base]; exact topGe B Y _ _ hinv.peel hloop (hl.ge hY)
   cases X with
-  | nil => exact absurd rfl hXne
+  | nil => exact absurd rfl (hne hloop)
   | cons f X1 =>
-    have hok : FrameOk B f := (hi.ge (f :: X1) hX).1 f (by simp)
+    have hok : FrameOk B f := ((hl.ge hY) (f :: X1) hX).1 f (by simp)
     have hstk : st.vm.stack = f :: (X1 ++ s0.vm.stack) := by rw [hX]; rfl
     exact ⟨fun he _ => Nat.lt_of_le_of_lt hok.2.1 (h.1 he f _ hstk),
-           fun he _ => Nat.lt_of_le_of_lt hok.2.2.1 (h.2 he f _ hstk)⟩
+           fun he _ => Nat.lt_of_le_of_lt hok.2.2.1 (h.2.1 he f _ hstk),
+           fun g gs hs hc => Nat.le_trans hbase (h.2.2 g gs hs hc)⟩
 
 theorem runUntil_low_frame (s0 : St) (x0 : Exit) (hs0 : inLoop s0 = false) (hc : Consistent s0.vm)
     (B : Bnd) : ∀ (evs : List Ev) (st : St) (Y : List Cont), Inv s0 (.loop x0) st Y →
@@ -1201,8 +1255,7 @@ theorem runUntil_low_frame (s0 : St) (x0 : Exit) (hs0 : inLoop s0 = false) (hc :
       have hY : Y ≠ [] := by
         intro hn; subst hn; apply hlen; rw [h.conts]; simp
       obtain ⟨Y', h'⟩ := step_inv s0 (.loop x0) hs0 hc st Y h hY ev
-      have hi := inside_of s0 x0 B st Y h hl hY
-      have hse := safeEv_of_frameSafe s0 x0 B st Y hi ev hsafe.1
+      have hse := safeEv_of_frameSafe s0 x0 B st Y h hl hY ev hsafe.1
       exact ih (step ev st) Y' h' (step_low s0 x0 hs0 B st Y h hl hY ev hse Y' h') hsafe.2
 
 end KotoVerif.Unwind
